@@ -80,6 +80,30 @@ func H_C03_PubkeyParse() {
 		h_realise_nonresidue(pub[1:33])
 	}
 	ok := q.ParsePubkey(pub)
+	if !ok && !zzverif.Symbolic() && L == 65 && h_below_p(pub[1:33]) {
+		// native realiser: under the engine "on the curve" is a relation of uninterpreted products; realise it with the
+		// next abscissa that really has a root, keeping the prefix and the parity of Y chosen by the model
+		alt := append([]byte{}, pub...)
+		for k := 0; k < 64; k++ {
+			var f Field
+			var c XY
+			f.SetB32(alt[1:33])
+			c.SetXO(&f, pub[64]&1 == 1)
+			if c.IsValid() {
+				c.Y.GetB32(alt[33:65])
+				break
+			}
+			for i := 32; i >= 1; i-- {
+				alt[i]++
+				if alt[i] != 0 {
+					break
+				}
+			}
+		}
+		if q.ParsePubkey(alt) {
+			ok, pub = true, alt
+		}
+	}
 	if ok {
 		zzverif.Reach("accepted")
 		zzverif.Assert("C03.pubkey.length-prefix", L == 33 && (pub[0] == 2 || pub[0] == 3) || L == 65 && (pub[0] == 4 || pub[0] == 6 || pub[0] == 7))
@@ -133,21 +157,31 @@ func H_C03_TweakCheck() {
 	outkey := zzverif.Bytes("output-key", 32)
 	parity := zzverif.Bool("parity")
 	var resX, resY []byte
+	inf := zzverif.Bool("tweaked.infinity")
 	if zzverif.Symbolic() {
-		zzverif.Stub("(*XY).ECPublicTweakAdd: arbitrary resulting point / failure (group law is C08's subject)")
+		zzverif.Stub("(*XYZ).ECmult: arbitrary finite point or infinity; (*XY).SetXYZ: arbitrary affine coordinates (group law is C08's subject)")
 		resX, resY = zzverif.Bytes("tweaked.x", 32), zzverif.Bytes("tweaked.y", 32)
-		fail := zzverif.Bool("tweak-add.fails")
-		zzverif.Replace("(*secp256k1.XY).ECPublicTweakAdd", func(key *XY, t *Number) bool {
-			if fail {
-				return false
-			}
-			key.X.SetB32(resX)
-			key.Y.SetB32(resY)
-			return true
+		zzverif.Replace("(*secp256k1.XYZ).ECmult", func(a *XYZ, r *XYZ, na, ng *Number) { r.Infinity = inf })
+		zzverif.Replace("(*secp256k1.XY).SetXYZ", func(r *XY, a *XYZ) {
+			r.Infinity = a.Infinity
+			r.X.SetB32(resX)
+			r.Y.SetB32(resY)
 		})
 	} else {
 		// native realiser: the output key the real arithmetic derives from this internal key, as an attacker would compute it
-		if h_below_p(base) {
+		if inf {
+			// P + t*G is the point at infinity for t = n - d where P = d*G (d = 7, negated if P has odd y)
+			d := big.NewInt(7)
+			var dk [32]byte
+			var pk [33]byte
+			d.FillBytes(dk[:])
+			BaseMultiply(dk[:], pk[:])
+			if pk[0] == 3 {
+				d.Sub(&TheCurve.Order.Int, d)
+			}
+			copy(base, pk[1:])
+			new(big.Int).Sub(&TheCurve.Order.Int, d).FillBytes(tweak)
+		} else if h_below_p(base) {
 			h_realise_nonresidue(base)
 		}
 		var bp XY
@@ -164,6 +198,7 @@ func H_C03_TweakCheck() {
 	}
 	if CheckPayToContract(outkey, base, tweak, parity) {
 		zzverif.Reach("accepted")
+		zzverif.Assert("C03.tweak.result-finite", !inf)
 		zzverif.Assert("C03.tweak.internal-key-below-p", h_below_p(base))
 		var q XY
 		q.X.SetB32(base)
